@@ -6,6 +6,7 @@ import (
 	"strconv"
 	"strings"
 	"sync"
+	"sync/atomic"
 	"time"
 
 	res "github.com/jirenius/go-res"
@@ -23,7 +24,14 @@ func qeScenService(group string, workers int, otherRan func()) (*svc.Runner, err
 	s.SetLogger(svc.NopLogger{})
 	s.SetWorkerCount(workers)
 	s.SetQueryEventDuration(qeDuration)
-	s.Handle("q", res.Group(group), res.GetResource(func(r res.GetRequest) { r.NotFound() }))
+	s.Handle("q", res.Group(group), res.GetResource(func(r res.GetRequest) { r.NotFound() }),
+		// the query event can also be made from a request handler (on the request's own resource value)
+		res.Call("mk", func(r res.CallRequest) {
+			if cb, ok := qeMkCb.Load().(func(res.QueryRequest)); ok && cb != nil {
+				r.QueryEvent(cb)
+			}
+			r.OK(nil)
+		}))
 	s.Handle("other", res.Group(group), res.Call("do", func(r res.CallRequest) {
 		otherRan()
 		r.OK(nil)
@@ -31,16 +39,34 @@ func qeScenService(group string, workers int, otherRan func()) (*svc.Runner, err
 	return svc.Start(s)
 }
 
+var qeMkCb atomic.Value // func(res.QueryRequest)
+var qeForce int32       // 1: always With, 2: always a request, 0: alternate
+var qeViaRequest int32  // the scenarios alternate between With and a call request for creating the query event
+
 func qeStartEvent(run *svc.Runner, cb func(res.QueryRequest)) (string, bool) {
 	from := run.C.NumPubs()
-	done := make(chan struct{})
-	if err := run.S.With("svc.q", func(r res.Resource) { r.QueryEvent(cb); close(done) }); err != nil {
-		return "", false
+	viaRequest := atomic.AddInt32(&qeViaRequest, 1)%2 == 0
+	switch atomic.LoadInt32(&qeForce) {
+	case 1:
+		viaRequest = false
+	case 2:
+		viaRequest = true
 	}
-	select {
-	case <-done:
-	case <-time.After(3 * time.Second):
-		return "", false
+	if viaRequest && run.S.Contains(func(h res.Handler) bool { return h.Call != nil && h.Call["mk"] != nil }) {
+		qeMkCb.Store(cb)
+		if _, ok := run.Request("call.svc.q.mk", []byte(`{}`), 3000); !ok {
+			return "", false
+		}
+	} else {
+		done := make(chan struct{})
+		if err := run.S.With("svc.q", func(r res.Resource) { r.QueryEvent(cb); close(done) }); err != nil {
+			return "", false
+		}
+		select {
+		case <-done:
+		case <-time.After(3 * time.Second):
+			return "", false
+		}
 	}
 	p, _, ok := run.C.WaitPub(from, func(p recconn.Pub) bool { return p.Subject == "event.svc.q.query" }, 2000)
 	if !ok {
@@ -68,6 +94,8 @@ func countResponses(c *recconn.Conn, reply string) int {
 // an explicit group shared with another resource. While the query callback runs, a call on
 // the other resource must wait; while that call's handler runs, a query callback must wait.
 func qeSerial(workers int) string {
+	atomic.StoreInt32(&qeForce, int32(1+workers%2)) // even worker counts: With; odd: from a request handler
+	defer atomic.StoreInt32(&qeForce, 0)
 	var mu sync.Mutex
 	otherCount := 0
 	otherGate := make(chan struct{}, 1) // when non-empty the "other" handler blocks on release2
@@ -163,6 +191,8 @@ func qeSerial(workers int) string {
 // group when the duration passes. It was received on an active query event, so it gets its
 // one response; the nil call comes after it, once.
 func qeQueued(workers int) string {
+	atomic.StoreInt32(&qeForce, int32(1+(workers+1)%2))
+	defer atomic.StoreInt32(&qeForce, 0)
 	run, err := qeScenService("shared", workers, func() {})
 	if err != nil {
 		return "start-failed"
